@@ -673,8 +673,7 @@ def tagged (name : Str) (payload : J) : J := .obj [(name, payload)]
 /-- `float_serde::serialize` for a human-readable format. -/
 def encJFloat (b : UInt64) : J :=
   if F.isNaN b then .str sNaN
-  else if b = posInf then .str sInf
-  else if b = negInf then .str sNegInf
+  else if F.isInf b then (if F.signBit b then .str sNegInf else .str sInf)
   else .float b
 
 def decJFloat : J → Option UInt64
